@@ -46,19 +46,21 @@ def absE (kr : Key × Rec) : Key × (Bytes × Nat) := (kr.1, absRec kr.2)
 /-- the abstract map of a store whose records are all in memory -/
 def absv (db : DB) : M := db.index.map absE
 
-def RecCached (r : Rec) : Prop := r.data.isSome = true ∧ hasFlag r.flags NO_CACHE = false
-def AllCached (l : List (Key × Rec)) : Prop := ∀ kr ∈ l, RecCached kr.2
-/-- the store has not failed, every record has its data in memory and none is flagged NO_CACHE -/
-def Cached (db : DB) : Prop := db.failed = none ∧ AllCached db.index
+/-- `e` is the store's ghost field `eager` (Model.Qdb.ncOf): for the real store (`e = false`) the tested flag is
+    NO_CACHE; for the eager ghost it is a bit no 32-bit flag word has -/
+def RecCached (e : Bool) (r : Rec) : Prop := r.data.isSome = true ∧ hasFlag r.flags (ncOf e) = false
+def AllCached (e : Bool) (l : List (Key × Rec)) : Prop := ∀ kr ∈ l, RecCached e kr.2
+/-- the store has not failed, every record has its data in memory and none carries the tested flag -/
+def Cached (db : DB) : Prop := db.failed = none ∧ AllCached db.eager db.index
 
-/-- the walk function never asks for NO_CACHE -/
-def WalkOK (w : List (Key × Nat)) : Prop := ∀ kf ∈ w, hasFlag kf.2 NO_CACHE = false
+/-- the walk function never asks for the tested flag -/
+def WalkOK (e : Bool) (w : List (Key × Nat)) : Prop := ∀ kf ∈ w, hasFlag kf.2 (ncOf e) = false
 
-/-- operations of the cached sub-language: no NO_CACHE flag is ever set, no reopen -/
-def OpOK : Op → Prop
-  | .putExt _ _ f => hasFlag f NO_CACHE = false
-  | .applyFlags _ fl => hasFlag fl NO_CACHE = false
-  | .browse w => WalkOK w
+/-- operations of the cached sub-language: the tested flag is never set, no reopen -/
+def OpOK (e : Bool) : Op → Prop
+  | .putExt _ _ f => hasFlag f (ncOf e) = false
+  | .applyFlags _ fl => hasFlag fl (ncOf e) = false
+  | .browse w => WalkOK e w
   | .reopen _ _ _ => False
   | _ => True
 
